@@ -10,13 +10,14 @@ Definition pt_eqb (p q : pt) : bool := Qeq_bool (fst p) (fst q) && Qeq_bool (snd
 
 Definition mkind_eqb (a b : mkind) : bool :=
   match a, b with
-  | MPoint, MPoint | MLine, MLine | MPolygon, MPolygon | MCollection, MCollection => true
+  | MLine, MLine | MPolygon, MPolygon | MCollection, MCollection => true
   | _, _ => false
   end.
 
 Fixpoint geom_eqb (a b : geom) {struct a} : bool :=
   match a, b with
   | Point p, Point q => pt_eqb p q
+  | MultiPoint x, MultiPoint y => list_eqb pt_eqb x y
   | Line x, Line y => list_eqb pt_eqb x y
   | Ring x, Ring y => list_eqb pt_eqb x y
   | Polygon e hs, Polygon e' hs' => list_eqb pt_eqb e e' && list_eqb (list_eqb pt_eqb) hs hs'
